@@ -95,6 +95,27 @@ META = {
 
 
 
+
+
+def _sig_var_word_steals_option_value(w):
+    """F-C16c: through DoitMain, an option is followed by its DETACHED value and that value is a `name=value` word"""
+    case = w.get('case') or {}
+    if case.get('path') not in VIA_DOITMAIN:
+        return False
+    return any(a[0] in ('sDet', 'lDet') and is_var_word(a[-1]) for a in (case.get('asgs') or []))
+
+
+def _sig_empty_word_crash(w):
+    """F-C16d: through DoitMain, the command line has an empty word and doit ended with IndexError"""
+    case = w.get('case') or {}
+    res = (w.get('impl') or {}).get('res') or {}
+    return (case.get('path') in VIA_DOITMAIN and '' in (case.get('argv') or [])
+            and res.get('err') == 'crash' and 'IndexError' in str(res.get('exc')))
+
+
+SIGNATURES = {'var-word-steals-option-value': _sig_var_word_steals_option_value,
+              'empty-word-crash': _sig_empty_word_crash}
+
 PATHS = ['parse', 'parse', 'command', 'main', 'premain', 'task', 'runtask', 'creator']
 
 
@@ -223,12 +244,13 @@ def gen_case(rng, base, path=None):
             case['argv'] = optlib.render(case['asgs'], case['sep'], case['pos'])
         elif not case['pos_arg']:
             return gen_case(rng, base, path)      # malformed / garbage streams: only with pos_arg (any leftover is a value)
-    if path in ('main', 'premain', 'creator', 'runtask'):
-        # '' as an argument crashes DoitMain.process_args / loader.load_tasks (arg[0]) before any option parsing;
-        # `x=1` positionals are command-line variables for DoitMain: both are outside this property
-        if any(a == '' for a in case['argv']) or (path in ('main', 'premain', 'runtask') and any('=' in a and not a.startswith('-')
-                                                                         for a in case['argv'])):
+    if path == 'creator':
+        # '' as an argument crashes loader.load_tasks (term[0]) before any option parsing (the creator path calls it directly)
+        if any(a == '' for a in case['argv']):
             return gen_case(rng, base, path)
+    # main / premain / runtask: '' and `name=value` words are generated; DoitMain.process_args is part of the model
+    # (stripVars): `x=1` positionals are command-line variables (documented), a detached option value `--o a=b` is
+    # taken for one too and '' crashes -- see F-C16c / F-C16d
     if path == 'creator' and (case['pos'] or case['sep'] or any(a == 't' for a in case['argv'])):
         case['pos'] = []
         case['sep'] = False
@@ -237,6 +259,13 @@ def gen_case(rng, base, path=None):
         else:
             return gen_case(rng, base, path)
     return case
+
+
+VIA_DOITMAIN = ('main', 'premain', 'runtask')
+
+
+def is_var_word(a):
+    return bool(a) and a[0] != '-' and '=' in a
 
 
 def add_layers(req, case):
@@ -252,6 +281,8 @@ def model_request(case):
     req = {'model': 'opt', 'spec': case['spec'], 'env': case['env'], 'ini': case['ini'], 'glob': case['glob'],
            'dodo': case['dodo'], 'argv': case['argv']}
     add_layers(req, case)
+    if case['path'] in VIA_DOITMAIN:
+        req['strip'] = True
     req['op'] = 'parse' if case['path'] in ('parse', 'realcmd') else 'pipeline'
     if case['path'] == 'premain':
         req.update(op='prepipeline', lspec=case['lspec'], pre=case['pre'])
@@ -272,7 +303,9 @@ def aux_requests(case):
 def spec_request(case):
     return add_layers({'model': 'opt', 'op': 'spec', 'spec': case['spec'], 'env': case['env'], 'ini': case['ini'],
             'glob': case['glob'], 'dodo': case['dodo'], 'asgs': case['asgs'] or [], 'sep': case['sep'],
-            'pos': case['pos']}, case)
+            # `name=value` positionals are command-line variables for DoitMain (doit.get_var), not positionals
+            'pos': ([p_ for p_ in case['pos'] if not is_var_word(p_)] if case['path'] in VIA_DOITMAIN else case['pos'])},
+                      case)
 
 
 def run_impl(case, workdir):
@@ -418,7 +451,8 @@ def judge(case, impl, model, spec):
                          % (case['malformed'], canon(r1)[:300])))
     # ---- (P) exact values / positional / precedence against the specification
     if spec is not None and not case.get('malformed') and not case.get('abbrev') and wf and spec['hyp_ok']:
-        if spec['argv'] != case['argv']:
+        if spec['argv'] != [a for a in case['argv'] if not (path in VIA_DOITMAIN and is_var_word(a)
+                                                            and a in case['pos'])]:
             raise RuntimeError('harness render differs from the model render: %s vs %s' % (spec['argv'], case['argv']))
         exp = spec['expect']
         if 'err' in exp:
@@ -671,6 +705,11 @@ def account(st, case, impl, model, spec):
                [set(e[0] for e in fs[k]['ini'] + fs[k]['glob']) for k in ('toml', 'cfg') if fs.get(k) is not None]
         if len(keys) > 1:
             st.count('mixed-config:key-in-several-layers=%s' % any(a & b for i, a in enumerate(keys) for b in keys[i + 1:]))
+    if case['path'] in VIA_DOITMAIN:
+        st.count('process_args:var-word-positional=%s,detached-value-var-word=%s,empty-word=%s'
+                 % (any(is_var_word(p_) for p_ in case['pos']),
+                    any(a[0] in ('sDet', 'lDet') and is_var_word(a[-1]) for a in (case['asgs'] or [])),
+                    '' in case['argv']))
     if case['path'] == 'runtask':
         st.count('runtask:pos_arg=%s,section=%s,args=%s' % (bool(case.get('pos_arg')), bool(case['ini']), bool(case['argv'])))
     if case['path'] == 'realcmd':
@@ -720,7 +759,9 @@ def process_batch(batch):
             seen.add(label)
             small = case
             extra = ''
-            if shrunk < 2:
+            known = any(k in SIGNATURES and SIGNATURES[k]({'case': case, 'impl': impl, 'failed': label})
+                        for kind_, k, _ in common.load_findings('C16') if kind_ == 'open')
+            if shrunk < 2 and not known:        # a listed finding is reported as found, not shrunk again on every run
                 shrunk += 1
                 small = shrink(case, label)
                 small, ok = standalone_witness(case, small, label)
